@@ -119,6 +119,13 @@ def shared_cells_oracle(ctx, r, case, tag):
 def numeric_oracle(ctx, r, case, tag):
     shared_cells_oracle(ctx, r, case, tag)
     core = r.core
+    # gap adjacency is symmetric (the failing input for a broken gapCert)
+    adj_ = [set(int(j) - 1 for j in row if j > 0) for row in core._sc_adj[:core.n_sc]]
+    asym = [(i, j) for i, nb_ in enumerate(adj_) for j in nb_ if j >= len(adj_) or i not in adj_[j]]
+    if asym:
+        ctx.violation("c09-adjacency-asymmetric", "gap cell %d lists gap cell %d as a neighbour but not the other way round (%d such links)"
+                      % (asym[0][0] + 1, asym[0][1] + 1, len(asym)), case=case, layout=tag, links=asym[:20])
+        return
     hex_side = core.duct_oftf / math.sqrt(3)
     for a in range(core.n_asm):
         per = float(np.sum(core.gap_params['asm wp'][a]))
